@@ -13,6 +13,11 @@ import json, os, subprocess, sys, time, threading, queue
 ROOT = os.path.dirname(os.path.dirname(os.path.abspath(__file__)))
 sys.path.insert(0, os.path.join(ROOT, "mutants"))
 from catalog import MUTANTS  # noqa: E402
+try:
+    from catalog_b2 import MUTANTS_B2  # noqa: E402
+    MUTANTS = list(MUTANTS) + list(MUTANTS_B2)
+except ImportError:
+    pass
 
 RES = os.path.join(ROOT, "mutants", "results.jsonl")
 LOCK = threading.Lock()
